@@ -166,6 +166,20 @@ pub fn run(ctx: &mut Ctx) {
         } else {
             e
         };
+        // very rarely: an element whose own encoding is beyond 16 MiB (a 17 MiB byte string), selected on its own
+        let e = if case % 20011 == 7 {
+            ctx.count("huge_elements");
+            let blob = Envelope::new(dcbor::ByteString::from(vec![(case % 251) as u8; 17 << 20]));
+            let x = Envelope::new(format!("holder-{}", case)).add_assertion("blob", blob.clone()).add_assertion("k", 1);
+            forced_sets.clear();
+            for _ in 0..3 {
+                forced_sets.push(vec![gen::root_digest(&blob)]);
+                forced_sets.push(vec![gen::root_digest(&x), gen::root_digest(&x.subject())]);
+            }
+            x
+        } else {
+            e
+        };
         let before = tree_of(&e);
         let has_hidden = before.flatten().iter().any(|(_, n)| matches!(n.kind, Kind::Elided | Kind::Encrypted));
         let pure = !before.has_obscured();
